@@ -22,3 +22,6 @@ def c10_plan_request(valid, unit, v, r):
     if not m:
         return None
     return f"mcbedrockplan {m.group(1)} {m.group(2)} {r} {v}"
+
+
+from props.mc_hostile import hostile_variants  # noqa: E402,F401 (C01 hook)
